@@ -11,7 +11,6 @@ import (
 	"hash/fnv"
 	"sort"
 
-	"github.com/prometheus/client_golang/prometheus"
 	"github.com/prometheus/prometheus/promql"
 
 	"github.com/thanos-community/promql-engine/verifshim"
@@ -93,8 +92,7 @@ func RunOnce(sc *Scenario, s Sched) *Obs {
 	}
 	opmon.Take()
 	verifshim.TakePanics()
-	reg := prometheus.NewRegistry()
-	eng, _, err := core.BuildEngine(&sc.Case, reg)
+	eng, _, err := core.BuildEngine(&sc.Case, nil)
 	if err != nil {
 		panic(err)
 	}
